@@ -30,7 +30,7 @@ theorem push_chunk_layout (P : Prims) (hP : PrimsOk P) (s : State) (m ad : Bytes
   have hk1 : 1 ≤ (P.ks s.k s.nonce 1 64).length := by rw [hP.ks_len]; omega
   have hb := block_take1_length tag (zeros 63) _ hk1
   have hc : (xorBytes m (P.ks s.k s.nonce 2 m.length)).length = m.length := by
-    simp [xorBytes_length, hP.ks_len]
+    simp [ss_xorBytes_length, hP.ks_len]
   have h := split3 _ _ (P.mac ((P.ks s.k s.nonce 0 64).take 32)
     (macInput ad (xorBytes (tag :: zeros 63) (P.ks s.k s.nonce 1 64))
       (xorBytes m (P.ks s.k s.nonce 2 m.length)))) m.length hb hc
